@@ -1,2 +1,3 @@
 import Props.C08
 import Props.C18
+import Props.C12
